@@ -57,6 +57,12 @@ CLAIMED = {
  "C19": dict(cat="exploration", technique="TLA+ dense definitions (SluKernels) evaluated by TLC on records of the real kernels over an exact small-integer domain (bit-identical comparison)",
              text="On small (Gaussian) integer data the sparse mat-vec, mat-mat, triangular solves with factored L/U, norms, row-to-column conversion and copy must equal their dense definitions exactly; TLC recomputes the definition for every record produced by the real routines in four precisions.",
              note="Exact domain only (entries -2..2, unit increments); rounding-bound agreement on general values is observed indirectly through C01/C02/C07. Known findings: F11 (non-unit increments), F15 (Frobenius norm), F18 (complex conjugate transpose).", ref="3.7, 5 C19"),
+ "C12": dict(cat="exploration", technique="TLA+ model checking of the estimator state machine (SluLacon, TLC incl. liveness) + trace validation of the real ?gscon/?lacon/sp_?trsv protocol (--wrap) + SluApi validation of expert-driver records; sandwich via harness oracle",
+             text="SluLacon models ?lacon's reverse-communication protocol (termination within 12 calls, kase sequence, no static read before written); every real ?gscon call is recorded (kase in/out of each ?lacon call, triangular solves in between) and must be accepted by the model; expert-driver records must show info = n+1 iff rcond < eps, the rcond sandwich in the right norm for the requested system (after equilibration), and the pivot growth recomputed from the returned factors.",
+             note="The sandwich and pivot-growth inequalities are oracle-evaluated (long double) and asserted for cond < 1e8 with 10 % slack.", ref="3.7, 5 C12"),
+ "C13": dict(cat="exploration", technique="SluApi trace validation of expert-driver histories; berr/ferr clauses via harness oracle",
+             text="For every refined solve over all trans/storage/equilibration combinations the returned berr must equal the true componentwise backward error of the returned X for the equilibrated system in the requested transpose sense (to 20(n+1)eps), and 20*ferr must dominate the actual relative error; TLC asserts both on the records of TLC-enumerated histories.",
+             note="Only the protocol part is decided by TLC; the two numerical inequalities are oracle-observed (long double).", ref="3.7, 5 C13"),
 }
 NA_REASON = "check not built yet in this session (planned, see DESIGN.md section 5); not claimed"
 
